@@ -645,6 +645,14 @@ func (p *Proc) evalSpecCall(ec *ectx, name string, call *ast.CallExpr) (Val, boo
 		// zerobased(x): the slice x starts at the beginning of its backing array
 		v := p.eval(ec, call.Args[0])
 		return Val{T: Eq(T("(s_off "+v.T.S+")", SInt), IntLit(0)), Typ: boolT}, true
+	case "held":
+		// held(x.mu): how often the mutex field mu of the object x points to is locked by the
+		// procedure so far (ghost; Lock adds one, Unlock takes one away)
+		if k := p.mutexKey(ec, call.Args[0]); k != nil {
+			h := p.heapGet(ec.st, "G:$held", ArrSort(SInt, SInt))
+			return Val{T: Sel(h, k), Typ: types.Typ[types.Int]}, true
+		}
+		p.failf(call, "%s: held: the argument must be a mutex field of a pointer to a struct", ec.where)
 	case "sbuf":
 		// sbuf(b): the text accumulated in the strings.Builder / bytes.Buffer b points to (ghost)
 		v := p.eval(ec, call.Args[0])
